@@ -19,6 +19,8 @@ D = {
  'D1': "D1: a committer that applied its own commit locally (merge_pending_commit takes no rollback snapshot) cannot roll back when the better competing commit arrives; it stays on the losing branch",
  'D2': "D2: an event refused once is blocked for ever by its Failed/EpochInvalidated dedup record (commit ahead of its predecessor, commit ahead of the proposal it references, proposal that arrived after the member moved on), so the member never advances",
  'D10': "D10: a member removed by a losing commit that processed its removal cannot follow the winning commit (use after eviction); its group stays Inactive although it is still a member",
+ 'D8': "D8: after a restart the snapshot queue rebuilt from storage has lost the applied commits' timestamps (applied_commit_ts = 0), is_better_candidate answers false, and a commit race can no longer be resolved by rollback: the restarted client refuses the better commit that the never-restarted one applies",
+ 'D11': "D11: an invitation that was already accepted (or one of its sibling rumors carrying the same MLS Welcome) is processed again when it arrives under another wrapper id: process_welcome upserts the group row, so an Active or evicted (Inactive) group is reset to Pending and can be re-activated at its join epoch by accept_welcome",
  'D14': "D14: a Nostr-group-id rotation applied on a losing branch makes the winning commit (tagged with the id in force when it was created) unroutable: GroupNotFound, recorded Failed, member stays on the losing branch",
 }
 def label(s):
@@ -28,6 +30,10 @@ def label(s):
         if 'proposal-dedup=failed' in s or 'proposal-dedup=epoch_invalidated' in s: return 'D2'
         if 'snapshot-at-fork=no,on-branch-of=own-commit' in s: return 'D1'
         if 'quiescent-behind' in s and 'off-spine-depth=0,needs=commit.other:dedup=failed:redelivery=Unprocessable' in s: return 'D2'
+    if s.startswith('C03|reactivated-after-eviction:pending|via=process_welcome(foreign-invitation)->Welcome'): return 'D11'
+    if s.startswith('C11|'):
+        if 'never-restarted=Commit|restarted=Unprocessable|restart-after-competitor-applied' in s: return 'D8'
+        if s.startswith('C11|obs-differs|deliver(commit.') and s.endswith('|restart-after-competitor-applied'): return 'D8'
     return None
 new = [s for s in sigs if s not in known]
 out = []
